@@ -1,4 +1,7 @@
 import RoaringModel.Lemmas.DecodeWF
+import RoaringModel.Lemmas.CodecKernel
+import RoaringModel.Lemmas.RoundTrip
+import RoaringModel.Lemmas.Dir
 /-!
 # C13 — the checked decoder never accepts a malformed stream as a broken set (32-bit half)
 
@@ -21,29 +24,53 @@ theorem C13_reads_declared (dbg : Bool) (bs rest : List Nat) (b : Bitmap)
       (∀ k, k < used.length → deserialize true dbg (used.take k) = .error .eof) :=
   mono_deserializeG true dbg bs b rest h
 
-/-- Full statement.  Partial only in that the run-chunk kernel fact `Kernel.runStore_wf` (replay through
-    `Store::insert_range` + `ensure_correct_store` yields a well-formed store or the empty array) is a named
-    hypothesis: it belongs to the Store/BitmapStore lemma library; the driver checks it at run time on every
-    decoded stream.  Array and bitset chunks, the header, key order and emptiness are proved here. -/
-theorem C13_32_partial (hK : Kernel.runStore_wf) (dbg : Bool) (bs : List Nat) (hb : ∀ x ∈ bs, x < 256) :
+/-- Full statement, unconditional: for every byte string the checked decoder returns an error that is not a
+    panic, or a value satisfying the shared invariant `Bitmap.WF` together with an unread rest that is a suffix
+    of the input.  (The run-chunk kernel fact `Kernel.runStore_wf` is discharged in `Lemmas/CodecKernel.lean`
+    from `Store.insertRange_spec` and `Container.ensureCorrectStore_spec`.) -/
+theorem C13_32 (dbg : Bool) (bs : List Nat) (hb : ∀ x ∈ bs, x < 256) :
     match deserialize true dbg bs with
-    | .ok (b, rest) => BitmapWF b ∧ rest <:+ bs
+    | .ok (b, rest) => Bitmap.WF b ∧ rest <:+ bs
     | .error e => e ≠ .panic := by
   cases h : deserialize true dbg bs with
   | ok r =>
     obtain ⟨b, rest⟩ := r
-    exact ⟨(post_deserialize hK dbg bs b rest hb h).1, rest_suffix _ (mono_deserializeG true dbg) bs b rest h⟩
+    exact ⟨(post_deserialize runStore_wf dbg bs b rest hb h).1.toWF,
+      rest_suffix _ (mono_deserializeG true dbg) bs b rest h⟩
   | error e =>
     intro he
     subst he
     exact C13_no_panic dbg bs h
 
-/-- the full property as a `Prop` (what remains once `Kernel.runStore_wf` is discharged) -/
+/-- the same, as an implication -/
+theorem C13_32_wf (dbg : Bool) (bs rest : List Nat) (b : Bitmap) (hb : ∀ x ∈ bs, x < 256)
+    (h : deserialize true dbg bs = .ok (b, rest)) : Bitmap.WF b ∧ rest <:+ bs := by
+  have := C13_32 dbg bs hb
+  rw [h] at this
+  exact this
+
+/-- the full property as a `Prop` -/
 def C13_32_statement : Prop :=
   ∀ (dbg : Bool) (bs : List Nat), (∀ x ∈ bs, x < 256) →
     match deserialize true dbg bs with
-    | .ok (b, rest) => BitmapWF b ∧ rest <:+ bs
+    | .ok (b, rest) => Bitmap.WF b ∧ rest <:+ bs
     | .error e => e ≠ .panic
+
+theorem C13_32_statement_holds : C13_32_statement := C13_32
+
+/-- Corollary: an accepted value is a *good* value.  All observers are consistent on it (its element list is
+    strictly ascending, inside `u32`, and membership is chunk-wise membership — the hypotheses of every
+    query/mutator theorem of the library hold), and it re-serialises to a stream that both decoders, in both
+    build configurations, decode to the very same value, leaving untouched whatever follows. -/
+theorem C13_reserialize (dbg : Bool) (bs rest : List Nat) (b : Bitmap) (hb : ∀ x ∈ bs, x < 256)
+    (h : deserialize true dbg bs = .ok (b, rest)) :
+    Bitmap.WF b ∧ Sorted (Bitmap.elems b) ∧ (∀ y ∈ Bitmap.elems b, y < 4294967296) ∧
+    (∀ y, y ∈ Bitmap.elems b ↔ y % 65536 ∈ Bitmap.chunk b (y / 65536)) ∧
+    ∀ (chk' dbg' : Bool) (ys : List Nat), deserialize chk' dbg' (Bitmap.serialize b ++ ys) = .ok (b, ys) := by
+  have hwf := (C13_32_wf dbg bs rest b hb h).1
+  refine ⟨hwf, Bitmap.sorted_elems b hwf.dir, Bitmap.elems_lt b hwf.dir, Bitmap.mem_elems b hwf.dir, ?_⟩
+  intro chk' dbg' ys
+  exact deserialize_serialize chk' dbg' b hwf.toCodec ys
 
 /-- non-vacuity: a stream with a run chunk (runs `[2..=4]`, `[9..=9]`, key 3) followed by two trailing bytes is
     accepted, leaving exactly the trailing bytes; a stream with descending keys is rejected. -/
